@@ -635,6 +635,34 @@ impl<'a> UserModel<'a> {
         Ok(())
     }
 
+    /// A recorded write is replayed into a cell of a multi-cell CSE array formula. The operation
+    /// that recorded it (an autofill or a paste that covered the array completely) had cleared
+    /// the whole array before writing; `set_user_input` alone would fail with "Cannot write in
+    /// a cell that is part of an array formula". Clear the array here as well.
+    fn clear_cse_array_covering(&mut self, sheet: u32, row: i32, column: i32) -> Result<(), String> {
+        let ws = self.model.workbook.worksheet(sheet)?;
+        let (anchor_row, anchor_column) = match ws.cell(row, column) {
+            Some(Cell::SpillCell { a, .. }) => *a,
+            Some(Cell::ArrayFormula { .. }) => (row, column),
+            _ => return Ok(()),
+        };
+        let (width, height) = match ws.cell(anchor_row, anchor_column) {
+            Some(Cell::ArrayFormula {
+                kind: ArrayKind::Cse,
+                r,
+                ..
+            }) if r.0 > 1 || r.1 > 1 => *r,
+            _ => return Ok(()),
+        };
+        let ws = self.model.workbook.worksheet_mut(sheet)?;
+        for r in anchor_row..anchor_row + height {
+            for c in anchor_column..anchor_column + width {
+                let _ = ws.cell_clear_contents(r, c);
+            }
+        }
+        Ok(())
+    }
+
     /// Applies diff list
     pub(super) fn apply_diff_list(&mut self, diff_list: &DiffList) -> Result<(), String> {
         let mut needs_evaluation = false;
@@ -648,6 +676,7 @@ impl<'a> UserModel<'a> {
                     old_value: _,
                 } => {
                     needs_evaluation = true;
+                    self.clear_cse_array_covering(*sheet, *row, *column)?;
                     self.model
                         .set_user_input(*sheet, *row, *column, new_value.to_string())?;
                 }
